@@ -21,14 +21,50 @@ fn run(cfg: &str, rt: &tokio::runtime::Runtime, out: &mut Vec<Failure>) {
     }
 }
 
-pub fn search(_seed: u64, _full: bool, rt: &tokio::runtime::Runtime) -> SearchResult {
+/// BOUNDED stand-in for the helper's contract (auditor/ensure_prefix_free#E_prefix_free): exhaustive over all sets of <= 3 labels
+/// of <= `bits` bits (each with and without stray bits beyond its length): accepted <==> pairwise no label is a prefix of another
+fn helper_exhaustive(bits: u32, out: &mut Vec<Failure>) -> u64 {
+    use akd_core::{AzksElement, AzksValue, NodeLabel};
+    let mut labels = vec![];
+    for len in 0..=bits {
+        for val in 0..(1u32 << len) {
+            let mut b = [0u8; 32];
+            for i in 0..len { if (val >> (len - 1 - i)) & 1 == 1 { b[(i / 8) as usize] |= 1 << (7 - (i % 8)); } }
+            labels.push(NodeLabel::new(b, len));
+            let mut b2 = b; b2[(len / 8) as usize] |= 1 << (7 - (len % 8)); b2[31] |= 1;
+            labels.push(NodeLabel::new(b2, len));
+        }
+    }
+    let el = |l: &NodeLabel| AzksElement { label: *l, value: AzksValue([0u8; 32]) };
+    let mut n = 0u64;
+    let mut check = |set: Vec<NodeLabel>, out: &mut Vec<Failure>| {
+        let nodes: Vec<AzksElement> = set.iter().map(el).collect();
+        let got = akd::auditor::vx_export::ensure_prefix_free(&nodes);
+        let mut free = true;
+        for i in 0..set.len() { for j in 0..set.len() { if i != j && crate::c17::pfx(&set[i], &set[j]) { free = false; } } }
+        if got != free && out.len() < 5 {
+            out.push(Failure { clause: "auditor/ensure_prefix_free#E_prefix_free".into(), case: vec!["c09".into(), "helper".into()],
+                input: format!("node labels {:?}", set.iter().map(|l| (l.label_val[0], l.label_len)).collect::<Vec<_>>()),
+                expected: format!("accepted == {free}"), observed: format!("accepted == {got}"), finding_id: None });
+        }
+    };
+    check(vec![], out); n += 1;
+    for a in &labels { check(vec![*a], out); n += 1; }
+    for a in &labels { for b in &labels { check(vec![*a, *b], out); n += 1; } }
+    for a in &labels { for b in &labels { for c in &labels { check(vec![*a, *b, *c], out); n += 1; } } }
+    n
+}
+
+pub fn search(_seed: u64, full: bool, rt: &tokio::runtime::Runtime) -> SearchResult {
     let mut out = vec![];
     for cfg in ["whatsapp_v1", "experimental"] { run(cfg, rt, &mut out); }
-    SearchResult { evaluations: 2, failures: out, summary: "overlapping node set (subtree root + new leaf below it) with a server-chosen end hash, both configurations".into() }
+    let bits = if full { 4 } else { 3 };
+    let n = helper_exhaustive(bits, &mut out);
+    SearchResult { evaluations: 2 + n, failures: out, summary: format!("overlapping node set (subtree root + new leaf below it) with a server-chosen end hash, both configurations; BOUNDED helper check: all sets of <= 3 labels of <= {bits} bits (with/without stray bits): ensure_prefix_free accepts <==> prefix-free") }
 }
 
 pub fn replay(case: &[&str], rt: &tokio::runtime::Runtime) -> (bool, String) {
     let mut out = vec![];
-    run(case[0], rt, &mut out);
+    if case[0] == "helper" { helper_exhaustive(3, &mut out); } else { run(case[0], rt, &mut out); }
     match out.first() { Some(f) => (true, format!("{}: expected {}, observed {}", f.input, f.expected, f.observed)), None => (false, "holds".into()) }
 }
